@@ -28,7 +28,7 @@ def run(ctx):
     vlib.sync_gosum()
     env = vlib.go_env()
     binp = ctx.path("harness.test")
-    b = subprocess.run(["go1.26", "test", "-tags", "verif", "-c", "-o", binp, "."], cwd=vlib.HARNESS, env=env, capture_output=True, text=True)
+    b = subprocess.run(["go1.26", "test"] + vlib.modfile_args(ctx.scratch) + ["-tags", "verif", "-c", "-o", binp, "."], cwd=vlib.HARNESS, env=env, capture_output=True, text=True)
     if b.returncode != 0:
         raise vlib.Inconclusive("harness build failed:\n" + b.stdout[-2000:] + b.stderr[-2000:])
     procs = []
